@@ -5,6 +5,8 @@ CONSTANTS
   MaxFrames = 0
   SendLens = {1, 65536, 16777215, 16777216, 16777217}
   AllowToggle = TRUE
+  MaxLoss = 0
+  ResetOnDisconnect = TRUE
 VIEW View
 INVARIANT UpIsPrefix
 INVARIANT Conservation
